@@ -39,9 +39,11 @@ double NewtonBacktrackOneDimension::doStep()
 {
   if (alam_ < alamin_)
   {
+    // No acceptable step: go back to the starting point, and put the function there too
+    // (it is still at the last step tried).
     getParameter_(0).setValue(0);
     tolIsReached_ = true;
-    return fold_;
+    return getFunction()->f(getParameters());
   }
 
   getParameter_(0).setValue(alam_);
